@@ -40,7 +40,7 @@ class Outcome:
     def __init__(self, delay=0.0, kind="ok", status=200, body=None, body_delay=0.0):
         self.delay = delay  # until the status line and the headers have arrived
         self.body_delay = body_delay  # from then until the last chunk of the body has arrived
-        self.kind = kind  # ok | status | conn-error | disconnect | timeout | hang
+        self.kind = kind  # ok | status | conn-error | disconnect | timeout | body-timeout | hang
         self.status = status
         self.body = body
 
@@ -60,6 +60,9 @@ class _Reader(aiohttp.streams.EmptyStreamReader):
                 await asyncio.sleep(w.body_delay)
             finally:
                 w.t_recv = self._es.clock.now
+        if w is not None and w.outcome == "body-timeout":
+            # the client's time-out strikes while the body is being read: status line and headers have arrived, the rest never does
+            raise asyncio.TimeoutError()
         return self._data
 
 
@@ -132,11 +135,11 @@ class SimES:
         w.proc = self.clock.proc.name
         out = self.policy(w)
         w.delay = out.delay
-        w.body_delay = out.body_delay if out.kind in ("ok", "status") else 0.0
+        w.body_delay = out.body_delay if out.kind in ("ok", "status", "body-timeout") else 0.0
         w.outcome = out.kind
-        w.status = out.status if out.kind in ("ok", "status") else None
-        if out.kind in ("ok", "status"):
-            body = out.body if out.body is not None else (default_body(w.method, w.path, data) if out.kind == "ok" else {"error": {"type": "sim_exception", "reason": "injected"}, "status": out.status})
+        w.status = out.status if out.kind in ("ok", "status", "body-timeout") else None
+        if out.kind in ("ok", "status", "body-timeout"):
+            body = out.body if out.body is not None else (default_body(w.method, w.path, data) if out.kind in ("ok", "body-timeout") else {"error": {"type": "sim_exception", "reason": "injected"}, "status": out.status})
             w.resp_body = body if isinstance(body, bytes) else json.dumps(body).encode("utf-8")
         self.log.append(w)
         self.inflight += 1
